@@ -83,7 +83,7 @@ Fixpoint items_loop (fuel : nat) (s : list N) (acc : list (list N)) : ares * lis
       | NOk tok last r' end_arr =>
         (* after the number: the "unsupported type" test uses the LAST byte read and the FIRST byte's numeric-ness *)
         let unsupported := negb (N.eqb last 44) && negb (N.eqb last 13) && negb (N.eqb last 10) && negb (is_ascii_control last)
-                           && negb (is_ascii_digit c) in
+                           && negb (is_ascii_digit c) && negb (N.eqb c 45) in      (* !is_numeric && !is_minus since the sign fix *)
         if unsupported then (AErr, []) else
         if end_arr || N.eqb last 93 then (AOk (acc ++ [tok]), r') else items_loop f r' (acc ++ [tok])
       end
@@ -95,6 +95,7 @@ Fixpoint trailing_ws (s : list N) : ares :=
   match s with [] => AOk [] | c :: r => if N.leb 128 c then APanicUtf8 else if ws1 c then trailing_ws r else AErr end.
 
 Definition split_array (json : list N) : ares :=
+  if existsb (fun x => N.leb 128 x) json then AErr else       (* the is_ascii guard (fix): the byte-at-a-time from_utf8 below cannot fail *)
   match open_bracket json with
   | (AOk _, r) =>
     match items_loop (S (length r)) r [] with
@@ -104,10 +105,10 @@ Definition split_array (json : list N) : ares :=
   | (e, _) => e
   end.
 
-Example a1 : split_array [91;45;53;93] = AErr. Proof. vm_compute. reflexivity. Qed.              (* "[-5]" *)
-Example a2 : split_array [91;49;44;45;53;93] = AErr. Proof. vm_compute. reflexivity. Qed.        (* "[1,-5]" *)
+Example a1 : split_array [91;45;53;93] = AOk [[45;53]]. Proof. vm_compute. reflexivity. Qed.     (* "[-5]": was an error *)
+Example a2 : split_array [91;49;44;45;53;93] = AOk [[49];[45;53]]. Proof. vm_compute. reflexivity. Qed.   (* "[1,-5]": was an error *)
 Example a3 : split_array [91;45;53;44;49;93] = AOk [[45;53];[49]]. Proof. vm_compute. reflexivity. Qed.   (* "[-5,1]" *)
-Example a4 : split_array [91;195;169;93] = APanicUtf8. Proof. vm_compute. reflexivity. Qed.     (* "[é]" *)
+Example a4 : split_array [91;195;169;93] = AErr. Proof. vm_compute. reflexivity. Qed.     (* "[é]" *)
 Example a5 : split_array [] = AErr. Proof. vm_compute. reflexivity. Qed.
 Example a6 : split_array [120] = AErr. Proof. vm_compute. reflexivity. Qed.
 Example a7 : split_array [91;34;34;93] = AOk [[34;34]]. Proof. vm_compute. reflexivity. Qed.     (* [""] *)
